@@ -3,7 +3,7 @@
    and the type sequence the real SyslLexer.NextToken returned to EOF, hidden tokens included. *)
 From Coq Require Import List NArith Bool.
 Import ListNotations.
-Require Import Verif.Front.Indent Verif.Front.Lines Verif.Front.Tables Verif.Gen.LexerTables Verif.Base.Harness.
+Require Import Verif.Front.Indent Verif.Front.Lines Verif.Front.Current Verif.Gen.LexerTables Verif.Base.Harness.
 Local Open Scope N_scope.
 
 Definition runs_ws (l:list (bool * N)%type) : list wsch :=
